@@ -102,7 +102,7 @@ impl<Q: Query> Describe for Has<Q> {
     fn bump(_: Has<Q>) {}
 }
 impl Describe for () {
-    fn describe(_: ()) -> String { "()".into() }
+    fn describe(_: ()) -> String { "_".into() }
     fn bump(_: ()) {}
 }
 macro_rules! describe_tuple {
